@@ -730,10 +730,22 @@ def check_samples(inp):
                                                         fill_value=fill)
     except Exception as e:  # noqa: BLE001
         return "intervals_to_samples raised %r" % (e,)
-    n = int(max(e for _, e in ivs) // size)
-    want_t = [i * size + off for i in range(n)]
-    if list(times) != want_t:
-        return "sample times %r, expected %r" % (list(times)[:8], want_t[:8])
+    if inp.get("decimal"):
+        # sample_size is not a binary fraction: the grid is computed in single precision, so the returned times are only
+        # near i*size + offset; what must hold exactly is that each label is that of the interval containing the time
+        # that is RETURNED (a grid time that single precision puts just below a boundary belongs to the earlier segment)
+        n = int(np.floor(max(e for _, e in ivs) / size))
+        if len(times) != n:
+            return "%d sample times, expected floor(max/size) = %d" % (len(times), n)
+        for i, t in enumerate(times):
+            w = i * size + off
+            if abs(t - w) > 2e-7 * max(1.0, abs(w)):
+                return "sample time %d is %r, expected about %r" % (i, t, w)
+    else:
+        n = int(max(e for _, e in ivs) // size)
+        want_t = [i * size + off for i in range(n)]
+        if list(times) != want_t:
+            return "sample times %r, expected %r" % (list(times)[:8], want_t[:8])
     for t, g in zip(times, got):
         w = label_at_closed(ivs, labs, t, fill)
         if g != w:
@@ -747,6 +759,19 @@ def gen_samples(rng, tier, shard, nshards, boost):
         yield {"intervals": [[F(s), F(e)] for s, e in ivs], "labels": labs,
                "offset": F(rng.choice([Fr(0), Fr(1, 16), Fr(1, 4), Fr(1)])),
                "size": F(rng.choice([Fr(1, 8), Fr(1, 4), Fr(1, 2), Fr(1), Fr(2)])), "fill": rng.choice([None, "F"])}
+    for _ in range((60 if tier == "quick" else 600) * boost):
+        # decimal frame sizes (the default is 0.1 s) with boundaries ON grid multiples: about half of the single-precision
+        # grid times fall just below the boundary they approximate
+        size = rng.choice([0.1, 0.1, 0.05, 0.01, 0.3])
+        k0 = rng.choice([0, 0, 0, 36000, 290000]) if size == 0.1 else 0
+        ks = sorted(rng.sample(range(k0 + 1, k0 + 120), rng.randint(1, 6)))
+        bs = [k0 * size] + [k * size + (rng.choice([0.0, 0.0, 1e-4, -1e-4, 0.013]) if rng.random() < 0.3 else 0.0) for k in ks]
+        bs = sorted(set(bs))
+        ivs = list(zip(bs[:-1], bs[1:]))
+        if not ivs:
+            continue
+        yield {"intervals": [[s, e] for s, e in ivs], "labels": [LABS[j % len(LABS)] for j in range(len(ivs))],
+               "offset": rng.choice([0.0, 0.0, 0.05]), "size": size, "fill": rng.choice([None, "F"]), "decimal": True}
 
 
 def check_roundtrip(inp):
